@@ -101,7 +101,7 @@ def _do_emit(ctx, src_node, entry, pid, k, item, loop_obj):
     return r, False
 
 
-def run_async(sc, max_rounds=400):
+def run_async(sc, max_rounds=120):
     res = RunResult()
     lp = simloop.new_loop(sc.get('tiebreak', 'fifo'), sc.get('tiebreak_seed', 0))
     lp.step_cap = sc.get('step_cap', 400_000)
@@ -145,6 +145,7 @@ def run_async(sc, max_rounds=400):
         tasks = [asyncio.ensure_future(producer(pid, p, tl))
                  for pid, p in enumerate(sc['producers'])]
         rounds = 0
+        settled = False
         while rounds < max_rounds:
             rounds += 1
             mark = len(rec.events)
@@ -154,8 +155,10 @@ def run_async(sc, max_rounds=400):
                 # a slow drain (one element per interval behind empty batches) is still progress
                 if rounds < 80 and _backlog(ctx, rec):
                     continue
+                settled = True
                 break
-        rec.rec('quiescent', rounds, state['producers_done'])
+        # a pipeline that keeps re-emitting data on every tick never settles
+        rec.rec('quiescent' if settled else 'restless', rounds, state['producers_done'])
 
     try:
         lp.run_until_complete(main())
